@@ -137,7 +137,7 @@ func init() {
 		Explanation: "Decides three structural clauses: (1) operands are never modified — the purity obligations of the write-effect analysis on Sequence.Merge/SubMerge/Truncate, every Expr.Merge/Get and every SubMerge function (exactly the property's 'never modifies its operands'); (2) every combiner reads both operands (an operand-ignoring merge cannot be a homomorphism); (3) cached encoded widths agree with the wrapped expression.",
 		NotDecided:  []string{"commutativity/associativity in value", "alignment arithmetic of Merge (lead/overlap/gap/tail), SubMerge index arithmetic, Truncate boundaries — these quantify over numeric values"},
 		Assumptions: []string{"external pure-reader table follows documented contracts", "VTA call graph over-approximates dynamic calls"},
-		Rules: []func(*Ctx){func(c *Ctx) { rulePurity(c, "C05.a") }, ruleC05b, ruleC05c, func(c *Ctx) { ruleC05d(c, "C05.d") }},
+		Rules: []func(*Ctx){func(c *Ctx) { rulePurity(c, "C05.a") }, ruleC05b, ruleC05c, func(c *Ctx) { ruleC05d(c, "C05.d") }, func(c *Ctx) { ruleC05e(c, "C05.e") }},
 	})
 }
 
@@ -203,5 +203,64 @@ func ruleC05d(c *Ctx, rule string) {
 			}
 		}
 		c.check(rule, name+": the period loop does not interpret period bytes", fn.Pos(), bad == "", itoa(nIf)+" branch(es) in the loop, none on the bytes of a period", "a branch inside the per-period loop depends on the raw bytes of a period (at "+bad+"): the byte layout is expression-specific (e.g. left||right for binary expressions), so a generic 'is it empty' test drops periods of composite expressions")
+	}
+}
+
+// ruleC05e: offsets into a sub-merge source use the source's width; a merge
+// returns a raw operand only when the other one is empty.
+func ruleC05e(c *Ctx, rule string) {
+	c.describe(rule, "flow/dom: (*shift).SubMergers computes the byte offset into the source ('other') with the width of the source expression it reads (subs[i].EncodedWidth()), not with the wrapper's own cached width; Sequence.Merge returns one of its raw operands unchanged only when the other operand is empty — after the later/earlier swap only the swapped values may be returned")
+	if sm := c.need(rule, "(*z/expr.shift).SubMergers"); sm != nil {
+		n := 0
+		for _, call := range callsTo(sm, "(*z/expr.shift).shiftedSubMerger") {
+			n++
+			a := call.Common().Args
+			ok := false
+			if len(a) >= 3 {
+				if cv, isC := root(a[2]).(*ssa.Call); isC && calleeName(cv) == "invoke (z/expr.Expr).EncodedWidth" {
+					// receiver: an element of the subs parameter
+					ok = dependsOn(cv.Call.Value, func(v ssa.Value) bool {
+						p, isP := v.(*ssa.Parameter)
+						return isP && p.Parent() == sm && typeStr(p.Type()) == "[]z/expr.Expr"
+					})
+				}
+			}
+			c.check(rule, "shift: offsets into the source use the source's width", call.Pos(), ok, "shiftedSubMerger(sm, subs[i].EncodedWidth())", "the shifted offset into the source column is not computed with the width of the source expression (e.g. the wrapper's own cached width): SHIFT over a composite expression reads each component at the wrong period")
+		}
+		if n == 0 {
+			c.bad(rule, "shift: offsets into the source use the source's width", sm.Pos(), "SubMergers no longer passes the source expression's width to the shifted sub-merger")
+		}
+	}
+	if mg := c.need(rule, "(z/encoding.Sequence).Merge"); mg != nil && len(mg.Params) >= 2 {
+		seq, other := mg.Params[0], mg.Params[1]
+		n := 0
+		for _, b := range mg.Blocks {
+			r, ok := b.Instrs[len(b.Instrs)-1].(*ssa.Return)
+			if !ok || len(r.Results) != 1 {
+				continue
+			}
+			rv := r.Results[0]
+			var otherOp *ssa.Parameter
+			if rv == ssa.Value(seq) {
+				otherOp = other
+			} else if rv == ssa.Value(other) {
+				otherOp = seq
+			} else {
+				continue
+			}
+			n++
+			guard := false
+			for _, g := range guardsOf(b) {
+				if bo, isB := g.v.(*ssa.BinOp); isB && bo.Op == token.EQL && g.pos {
+					if k, isK := constInt(bo.Y); isK && k == 0 {
+						if cl, isC := bo.X.(*ssa.Call); isC && isCall(cl, "builtin len") && cl.Call.Args[0] == ssa.Value(otherOp) {
+							guard = true
+						}
+					}
+				}
+			}
+			c.check(rule, "Sequence.Merge returns a raw operand only if the other is empty", r.Pos(), guard, "guarded by len(other operand) == 0", "Merge returns its raw receiver/argument on a path where the other operand is not empty (after the later/earlier swap only sa/sb may be returned): whichever series happens to be the receiver wins, e.g. an expired on-disk series hides the new points of a key that reports again")
+		}
+		c.floor(rule, "raw-operand returns in Sequence.Merge", n, 2)
 	}
 }
